@@ -103,8 +103,10 @@ def rust_str(lit):
 
 
 def parse_place(s):
-    """-> ('local', n) | ('deref', P) | ('field', P, n) | ('downcast', P, variant) | ('index', P, local) | ('cindex', P, n)"""
+    """-> ('local', n) | ('deref', P) | ('field', P, n) | ('downcast', P, variant) | ('index', P, local) | ('cindex', P, n) | ('tls', name)"""
     s = s.strip()
+    if s.startswith('/*tls*/ '):
+        return ('tls', s[8:].strip())
     m = re.fullmatch(r'_(\d+)', s)
     if m:
         return ('local', int(m.group(1)))
